@@ -76,6 +76,16 @@ IllFormedCases ==
 
 MC_Cases == NameCases \cup IconCases \cup IllFormedCases
 
+\* the lossy text members inside complete requests (C01: "apart from the documented lossy members")
+C01_Cases ==
+    {SentCase(1, [McReqMin EXCEPT !.user = [UserMin EXCEPT !.name = <<n>>, !.displayName = <<n>>],
+                                       !.rp = [RpMin EXCEPT !.name = <<n>>]], "mc.names", F) : n \in StraddleThin \cup LengthNames}
+    \cup {SentCase(10, [CmReqMin EXCEPT !.subCommand = 7,
+                                        !.subCommandParams = <<[CmParamsMin EXCEPT !.user = <<[UserMin EXCEPT !.name = <<n>>, !.displayName = <<n>>]>>]>>],
+                   "cm.updateUserInformation.names", F) : n \in StraddleThin}
+    \cup {SentCase(1, [McReqMin EXCEPT !.user = [UserMin EXCEPT !.icon = <<AsciiPattern(4, n)>>],
+                                       !.rp = [RpMin EXCEPT !.icon = <<AsciiPattern(5, n)>>]], "mc.icons", F) : n \in IconLengths}
+
 \* the part of this corpus that C04 replays (capacity handling of text members must not crash)
 C04_Cases ==
     {TCase("User", [UserMin EXCEPT !.name = <<n>>], "user.name") : n \in StraddleNames}
